@@ -283,6 +283,10 @@ func scenarios(tier string) []*vsched.Scenario {
 		// ScheduleWithTimeout with degenerate timeouts on a full queue (one worker busy, channel and overflow buffer taken)
 		out = append(out, poolScenario(scenlib.PoolCfg{Cap: 1, Buf: 1, Max: 1, StandBy: 1, Batch: 1},
 			[][]jobSpec{{js("timed", S), js("plain", S), js("plain", S), js("plain", "timeout0"), js("plain", "timeout2ns"), js("plain", "timeout-neg"), js("plain", "timeout1ns")}}, false, 0, false))
+		// an on-demand pool whose only worker dies of a panic while a ScheduleWithTimeout caller is between two attempts:
+		// the job accepted on the retry runs like one accepted at once
+		out = append(out, poolScenario(scenlib.PoolCfg{Cap: 1, Buf: 0, Max: 1, StandBy: 0, Batch: 1}, [][]jobSpec{{js("timed", S), js("panic", S), js("plain", T)}}, false, 1, false),
+			poolScenario(scenlib.PoolCfg{Cap: 1, Buf: 0, Max: 1, StandBy: 0, Batch: 1}, [][]jobSpec{{js("timed", S), js("timed-panic", S)}, {js("plain", T)}}, false, 1, true))
 		// a panic handler that schedules a follow-up job on its own pool
 		out = append(out,
 			poolScenarioH(scenlib.PoolCfg{Cap: 2, Buf: 1, Max: 2, StandBy: 2, Batch: 1}, [][]jobSpec{{js("panic", S)}}, false, 0, 0, false, true)) // (bound 0: with two stand-by workers and their timers one deviation already takes minutes)
